@@ -48,7 +48,7 @@ def anchors(prop):
 def map_lines(path, ranges):
     """line numbers of the base commit -> set of line numbers (1-based) in /repo HEAD's file"""
     base = sh(f"git -C /repo show {BASE}:{path}").stdout.splitlines()
-    cur = open(os.path.join("/repo", path)).read().splitlines()
+    cur = sh(f"git -C /repo show HEAD:{path}").stdout.splitlines()          # the committed tree (the scratch worktrees are created from HEAD)
     sm = difflib.SequenceMatcher(None, base, cur, autojunk=False)
     m = {}
     for tag, i1, i2, j1, j2 in sm.get_opcodes():
